@@ -294,10 +294,15 @@ class BCHCodeEncoder(CyclicCodeEncoder):
         # For a systematic code, the check matrix H can be derived from the generator matrix G.
         # If G = [I_k | P], then H = [P^T | I_(n-k)]
         identity_part = torch.eye(self._redundancy, dtype=self._dtype, device=self.generator_matrix.device)
-        parity_part = self.generator_matrix[:, self._dimension :].T
 
-        # Construct H = [P^T | I_m]
-        self._check_matrix = torch.cat([parity_part, identity_part], dim=1)
+        if self._info_set_config == "left":
+            parity_part = self.generator_matrix[:, self._dimension :].T
+            # Construct H = [P^T | I_m]
+            self._check_matrix = torch.cat([parity_part, identity_part], dim=1)
+        else:
+            # For the 'right' layout G = [P | I_k], hence H = [I_m | P^T]
+            parity_part = self.generator_matrix[:, : self._redundancy].T
+            self._check_matrix = torch.cat([identity_part, parity_part], dim=1)
 
     @property
     def mu(self) -> int:
